@@ -59,7 +59,7 @@ meta("C09",
      rule="G3 histories with ~45% identifier clashes (additions and renames of every identified record type to identifiers in use by the same or another type) and legal renames; unique_names walker after every outermost mutation; model comparison after renames; non-trivial = history with a cross-type clash or a rename After every successful step a lookup oracle compares names/line()/segment() with the model (each identifier listed once and found as the real line that writes the model's record; freed identifiers not found), placeholders must exist exactly for mentioned-undefined identifiers, and line objects obtained earlier which claim to be connected must be the registered ones; L/C identifier tags are set, renamed and deleted; renames onto placeholders and to '*'.",
      budget={"quick": 25, "thorough": 400},
      min_counts={"quick": {"invariant_evaluations": 1000, "failing_calls": 300, "op:rename": 50, "lookups": 5000,
-                           "freed_lookups": 100}},
+                           "freed_lookups": 100, "unused_names_asked": 1000, "unused_names_asked_with_dangling_integer": 100}},
      set_samples=["clash_shapes"])
 
 meta("C04",
